@@ -19,6 +19,7 @@ type sc struct {
 	Alt   any  // a different value of the same type (used as the losing side of a conflict); == V if Fixed
 	Req   bool // the file schema requires this leaf whenever its parent exists
 	Fixed bool // discriminator (type, strategy ...): a conflicting value would describe another configuration
+	Discr bool // the `type` of a mechanism or of the cache: the leaf that tells the definitions of the schema apart
 }
 
 type seg struct {
